@@ -110,12 +110,16 @@ pub(crate) fn remove_or_compress_too_old_logfiles_impl(
         log_limit = 1;
     }
 
+    #[cfg(feature = "verif_hooks")]
+    crate::verif_hooks::point("cleanup_list", None, None)?;
     for (index, file) in list_of_log_and_compressed_files(file_spec, infix_filter)
         .into_iter()
         .enumerate()
     {
         if index >= log_limit + compress_limit {
             // delete (log or log.gz)
+            #[cfg(feature = "verif_hooks")]
+            crate::verif_hooks::point("cleanup_remove", Some(&file), None)?;
             std::fs::remove_file(file)?;
         } else if index >= log_limit {
             #[cfg(feature = "compress")]
@@ -135,13 +139,23 @@ pub(crate) fn remove_or_compress_too_old_logfiles_impl(
                             }
                         }
 
+                        #[cfg(feature = "verif_hooks")]
+                        crate::verif_hooks::point("gz_create", Some(&compressed_file), None)?;
                         let mut gz_encoder = flate2::write::GzEncoder::new(
                             File::create(compressed_file)?,
                             flate2::Compression::fast(),
                         );
+                        #[cfg(feature = "verif_hooks")]
+                        crate::verif_hooks::point("gz_open_src", Some(&file), None)?;
                         let mut old_file = File::open(file.clone())?;
+                        #[cfg(feature = "verif_hooks")]
+                        crate::verif_hooks::point("gz_copy", Some(&file), None)?;
                         std::io::copy(&mut old_file, &mut gz_encoder)?;
+                        #[cfg(feature = "verif_hooks")]
+                        crate::verif_hooks::point("gz_finish", Some(&file), None)?;
                         gz_encoder.finish()?;
+                        #[cfg(feature = "verif_hooks")]
+                        crate::verif_hooks::point("gz_remove_src", Some(&file), None)?;
                         std::fs::remove_file(&file)?;
                     }
                 }
@@ -186,6 +200,8 @@ pub(super) fn start_cleanup_thread(
         sender,
         join_handle: builder.spawn(move || {
             while let Ok(MessageToCleanupThread::Act) = receiver.recv() {
+                #[cfg(feature = "verif_hooks")]
+                crate::verif_hooks::sched("cleanup_act");
                 remove_or_compress_too_old_logfiles_impl(
                     &cleanup,
                     &file_spec,
